@@ -16,7 +16,7 @@ func init() {
 
 // vMalformed are delete-slots annotation values that do not decode to a list
 // of int32 (or decode to an empty one); the desired set is then [0,r).
-var vMalformed = []string{"", "x", "[1,", "{}", "[1.5]", "[99999999999]", "null", "[]", "[\"1\"]", "[-]"}
+var vMalformed = []string{"", "x", "[1,", "{}", "[1.5]", "[99999999999]", "null", "[]", "[\"1\"]", "[-]", "[1, 2147483648]", "[0, \"1\", 2]"}
 
 // vObj is the smallest metav1.Object carrying annotations.
 func vObj(ann map[string]string) metav1.Object {
